@@ -399,6 +399,32 @@ def runtime_checks():
             for cn, a, b in (('x', xb, x), ('y', yb, y), ('z', zb, z)):
                 if not torch.allclose(a, b, rtol=0, atol=1e-12):
                     bad.append(dict(case='axis points', quantity=f'{nm} round trip, {cn}', got=a.reshape(-1).tolist(), want=b.reshape(-1).tolist()))
+        # tensors that were first seen by the library in another autograd state (under no_grad, or before requires_grad_ was set)
+        r = torch.tensor([[1.1], [2.0], [0.6]]); th = torch.tensor([[0.7], [1.2], [2.0]]); ph = torch.tensor([[0.4], [1.0], [5.0]])
+        with torch.no_grad():
+            ops.spherical_to_cartesian(r, th, ph)
+            ops.cylindrical_to_cartesian(r, ph, th)
+            ops.spherical_laplacian(r * 1.0, r, th, ph) if False else None
+        for t_ in (r, th, ph):
+            t_.requires_grad_(True)
+        u = r ** 2 * torch.sin(th) ** 2 * torch.cos(2 * ph)                # x^2 - y^2: harmonic
+        lap = ops.spherical_laplacian(u, r, th, ph).detach().reshape(-1)
+        if not torch.allclose(lap, torch.zeros(3), rtol=0, atol=1e-9):
+            bad.append(dict(case='coordinate tensors first used under torch.no_grad(), then with requires_grad', quantity='spherical_laplacian of x^2 - y^2',
+                            got=lap.tolist(), want=[0, 0, 0]))
+        dv = ops.spherical_div(r + 0 * th, 0 * r, 0 * r, r, th, ph).detach().reshape(-1)        # position vector field r e_r: divergence 3
+        if not torch.allclose(dv, torch.full((3,), 3.0), rtol=0, atol=1e-9):
+            bad.append(dict(case='coordinate tensors first used under torch.no_grad(), then with requires_grad', quantity='spherical_div of r e_r',
+                            got=dv.tolist(), want=[3, 3, 3]))
+        # a coordinate column used directly as the field (u = r, u = z, the position field, rigid rotation u_phi = rho)
+        r, th, ph = col(1.1, 2.0, 0.6), col(0.7, 1.2, 2.0), col(0.4, 1.0, 5.0)
+        cmp('field is a coordinate column', 'spherical_grad(r)[0]', ops.spherical_grad(r, r, th, ph)[0], [1.0, 1.0, 1.0])
+        cmp('field is a coordinate column', 'spherical_laplacian(r)', ops.spherical_laplacian(r, r, th, ph), (2 / r).detach())
+        cmp('field is a coordinate column', 'spherical_div(r, 0, 0)', ops.spherical_div(r, 0 * r, 0 * r, r, th, ph), [3.0, 3.0, 3.0])
+        rho, phc, z = col(1.0, 2.0, 0.5), col(0.4, 1.0, 5.0), col(0.3, -0.4, 1.0)
+        cmp('field is a coordinate column', 'cylindrical_div(rho, 0, z)', ops.cylindrical_div(rho, 0 * rho, z, rho, phc, z), [3.0, 3.0, 3.0])
+        cmp('field is a coordinate column', 'cylindrical_curl(0, rho, 0)[2]', ops.cylindrical_curl(0 * rho, rho, 0 * rho, rho, phc, z)[2], [2.0, 2.0, 2.0])
+        cmp('field is a coordinate column', 'cylindrical_grad(z)[2]', ops.cylindrical_grad(z, rho, phc, z)[2], [1.0, 1.0, 1.0])
         # keyword calls in any order name the same arguments as the positional call
         import inspect
         import itertools
